@@ -17,6 +17,7 @@ var (
 	cInvalid = vt.New("C13", "invalid-nested-sweep")
 	cRefs    = vt.New("C13", "reference-sweep")
 	cCompose = vt.New("C13", "compose")
+	cGuard   = vt.New("C13", "guard-selfcheck")
 )
 
 // mine: sweep item i belongs to this shard.
@@ -44,7 +45,7 @@ func example[V any](f func(t *rapid.T) V, seed int) V {
 	return rapid.Custom(func(t *rapid.T) V {
 		rapid.Bool().Draw(t, "_") // a Custom generator must consume data even when f draws nothing
 		return f(t)
-	}).Example(int(vt.Seed()%1000003)*7919 + seed)
+	}).Example(int((vt.Seed()*2654435761)>>20&0x3fffffff) + seed)
 }
 
 // sweepCase evaluates one enumerated script.
@@ -289,7 +290,48 @@ func genCase(t *rapid.T) Script {
 // TestCompose: random compositions — several components, many written leaves,
 // and (mostly) one mistake.
 func TestCompose(t *testing.T) {
-	vt.Run(t, cCompose, vt.N(12000, 240000), genCase, func(s Script) (bool, string, *vt.Finding) {
+	vt.Run(t, cCompose, vt.N(9000, 200000), genCase, func(s Script) (bool, string, *vt.Finding) {
 		return evaluate(cCompose, s)
 	})
+}
+
+// TestGuardSelfCheck: the acceptance guard must absorb (drop and count, never
+// report) generator mistakes about validity — on the unchanged tree the
+// curated generators never trip it, so its three paths are exercised here with
+// hand-made scripts.  A failure is a harness defect (inconclusive), not a violation.
+func TestGuardSelfCheck(t *testing.T) {
+	if vt.ReplayPath() != "" || !firstShard() {
+		t.Skip()
+	}
+	c := cGuard
+	defer c.Flush()
+	otlp := kindByName["exporters/otlp"]
+	cases := []struct {
+		name string
+		ws   []Write
+		want int // surviving writes
+	}{
+		{"invalid single unit", []Write{{P: []string{"endpoint"}, V: vStr("h:1"), U: "#base"}, w("timeout", Val{K: "dur", S: "-1s"}), w("wait_for_ready", vBool(true))}, 2},
+		{"interaction of two valid units", []Write{{P: []string{"endpoint"}, V: vStr("h:1"), U: "#base"}, w("tls::ca_file", vStr("/a")), w("tls::ca_pem", Val{K: "opaque", S: "x"})}, 1},
+		{"required settings invalid", []Write{{P: []string{"endpoint"}, V: vStr(""), U: "#base"}}, -1},
+	}
+	for _, tc := range cases {
+		s, _ := minimal(otlp, tc.ws)
+		kept, ok := guard(c, otlp, secExporters, "otlp/t", tc.ws)
+		got := len(kept)
+		if !ok {
+			got = -1
+		}
+		if got != tc.want {
+			c.Inconclusive("guard self-check %q: %d writes survive, want %d", tc.name, got, tc.want)
+			t.Fatalf("guard self-check %q: %d writes survive, want %d", tc.name, got, tc.want)
+		}
+		nt, key, f := evaluate(c, s)
+		c.Eval(nt, key)
+		if f != nil {
+			c.Inconclusive("guard self-check %q reported %v", tc.name, f)
+			t.Fatalf("guard self-check %q reported %v", tc.name, f)
+		}
+	}
+	c.SetExhaustive(true)
 }
